@@ -17,7 +17,15 @@ SUFFIX = {"png": [".png", ".PNG"], "jpeg": [".jpg", ".jpeg", ".JPG"], "emf": [".
 
 def make_image(kind, rng, size):
     """Bytes with a valid header of the given kind and arbitrary dimensions; returns (bytes, w, h)."""
-    w, h = rng.randint(1, 60000), rng.randint(1, 60000)
+    def dim(maxv):
+        # arbitrary dimensions: small, 16-bit, the boundaries of the 16-bit range and (PNG) anything up to 2^31 - 1
+        u = rng.random()
+        if u < 0.5:
+            return rng.randint(1, min(maxv, 60000))
+        if u < 0.75:
+            return rng.choice([v for v in (1, 255, 256, 32767, 32768, 65535, 65536, 65537, 100000, 2**24, 2**31 - 1) if v <= maxv])
+        return rng.randint(1, maxv)
+    w, h = dim(2**31 - 1), dim(2**31 - 1)
     body = bytes(rng.getrandbits(8) for _ in range(max(0, size)))
     if kind == "png":
         data = b"\x89PNG\r\n\x1a\n" + struct.pack(">I", 13) + b"IHDR" + struct.pack(">II", w, h) + b"\x08\x02\x00\x00\x00" + body
@@ -25,7 +33,7 @@ def make_image(kind, rng, size):
             data += b"\x00" * (25 - len(data))
         return data, w, h
     if kind == "jpeg":
-        w, h = rng.randint(1, 65535), rng.randint(1, 65535)
+        w, h = dim(65535), dim(65535)
         segs = b""
         for _ in range(rng.randint(0, 2)):       # APPn segments before the frame header
             n = rng.randint(2, 40)
